@@ -14,6 +14,7 @@ Stmt kinds (dict with "k"):
   startflow{f, arg?, ref}               start h<f> [arg] as $r<ref>
   awaitflow{f, arg?}                    await h<f> [arg]
   awaitg  {op, fs}                      await h<a> <op> h<b>
+  awaitga {op, acts}                    await <Action a> <op> <Action b>
   activate{f}                           activate h<f>
   matchflow{ref}                        match $r<ref>.Finished()
   assign  {var, expr}                   $<var> = <expr>      expr: int | ["+", var, int]
@@ -89,6 +90,8 @@ def _body(stmts, ind, out):
             out.append(p + f"await {_call(s['f'], s.get('arg'))}")
         elif k == "awaitg":
             out.append(p + "await " + f" {s['op']} ".join(f"h{f}" for f in s["fs"]))
+        elif k == "awaitga":
+            out.append(p + "await " + f" {s['op']} ".join(f"{ACTIONS[a][0]}({ACTIONS[a][1]})" for a in s["acts"]))
         elif k == "activate":
             out.append(p + f"activate h{s['f']}")
         elif k == "matchflow":
@@ -106,7 +109,7 @@ def _body(stmts, ind, out):
             _body(s["body"], ind + 1, out)
         elif k == "when":
             for i, c in enumerate(s["cases"]):
-                cond = f"Ev{c['ev']}()" if "ev" in c else f"h{c['f']}"
+                cond = f"Ev{c['ev']}()" if "ev" in c else f"h{c['f']}" if "f" in c else f"{ACTIONS[c['act']][0]}({ACTIONS[c['act']][1]})"
                 out.append(p + ("when " if i == 0 else "or when ") + cond)
                 _body(c["body"], ind + 1, out)
             if s.get("else") is not None:
@@ -170,6 +173,8 @@ def _stmts_inner(draw, ctx, depth, helper_params, n, out, prof):
         kinds = ["wait", "wait", "send", "send", "assign"]
         if prof.get("actions", True):
             kinds += ["startact", "awaitact"]
+            if prof.get("groups", True):
+                kinds += ["awaitga"]
             if ctx.vis_a:
                 kinds += ["matchact"]
         callees = ctx.callable_flows(helper_params)
@@ -197,11 +202,18 @@ def _stmts_inner(draw, ctx, depth, helper_params, n, out, prof):
             var = draw(st.sampled_from(VARS))
             out.append({"k": "assign", "var": var, "expr": draw(st.one_of(st.integers(0, 2), st.just(["+", var, 1])))})
         elif k == "startact":
-            out.append({"k": "startact", "a": draw(st.integers(0, len(ACTIONS) - 1)), "ref": ctx.action_refs})
-            ctx.vis_a.append(ctx.action_refs)
-            ctx.action_refs += 1
+            if ctx.vis_a and draw(st.integers(0, 3)) == 0:
+                # re-assign an existing reference (the same `match $aN.Finished()` may then wait for another action type)
+                out.append({"k": "startact", "a": draw(st.integers(0, len(ACTIONS) - 1)), "ref": draw(st.sampled_from(ctx.vis_a))})
+            else:
+                out.append({"k": "startact", "a": draw(st.integers(0, len(ACTIONS) - 1)), "ref": ctx.action_refs})
+                ctx.vis_a.append(ctx.action_refs)
+                ctx.action_refs += 1
         elif k == "awaitact":
             out.append({"k": "awaitact", "a": draw(st.integers(0, len(ACTIONS) - 1))})
+        elif k == "awaitga":
+            acts = draw(st.lists(st.integers(0, len(ACTIONS) - 1), min_size=2, max_size=3, unique=True))
+            out.append({"k": "awaitga", "op": draw(st.sampled_from(["or", "or", "and"])), "acts": acts})
         elif k == "matchact":
             out.append({"k": "matchact", "ref": draw(st.sampled_from(ctx.vis_a)), "what": draw(st.sampled_from(["Finished", "Finished", "Started"]))})
         elif k in ("startflow", "awaitflow"):
@@ -256,12 +268,18 @@ def _stmts_inner(draw, ctx, depth, helper_params, n, out, prof):
                         used.add(("f", f))
                         cases.append({"f": f, "body": draw(_stmts(ctx, depth - 1, helper_params, 1, 2))})
                         continue
+                if prof.get("actions", True) and draw(st.integers(0, 3)) == 0:
+                    cand = [a for a in range(len(ACTIONS)) if ("a", a) not in used]
+                    a = draw(st.sampled_from(cand))
+                    used.add(("a", a))
+                    cases.append({"act": a, "body": draw(_stmts(ctx, depth - 1, helper_params, 1, 2))})
+                    continue
                 cand = [e for e in range(EVENTS) if ("e", e) not in used]
                 e = draw(st.sampled_from(cand))
                 used.add(("e", e))
                 cases.append({"ev": e, "body": draw(_stmts(ctx, depth - 1, helper_params, 1, 2))})
             s = {"k": "when", "cases": cases}
-            if any("f" in c for c in cases) and draw(st.booleans()):
+            if any("f" in c or "act" in c for c in cases) and draw(st.booleans()):
                 s["else"] = _no_leading_if(draw(_stmts(ctx, depth - 1, helper_params, 1, 2)))
             out.append(s)
         else:
@@ -325,7 +343,7 @@ def count_kinds(prog):
     return c
 
 
-# history items: ["ev", k, v|None] | ["started", i] | ["finished", i] | ["hit", i, v]
+# history items: ["ev", k, v|None] | ["started", i] | ["finished", i] | ["hit", i, v] | ["age"] (6 s of idle time)
 #   i indexes the running actions; "hit" picks the i-th event name some flow currently waits for (co-simulation)
 def history_item():
     v = st.sampled_from([None, None, 0, 1])
@@ -335,16 +353,12 @@ def history_item():
         st.tuples(st.just("hit"), st.integers(0, 5), v),
         st.tuples(st.just("finished"), st.integers(0, 3)),
         st.tuples(st.just("started"), st.integers(0, 3)),
+        st.tuples(st.just("started"), st.integers(0, 3)),
+        st.sampled_from([("age",), ("hit", 0, None), ("hit", 1, None)]),
     ).map(list)
 
 
 def histories(max_len=25):
     v = st.sampled_from([None, None, 0, 1])
-    item = st.one_of(
-        st.tuples(st.just("ev"), st.integers(0, EVENTS - 1), v),
-        st.tuples(st.just("hit"), st.integers(0, 5), v),
-        st.tuples(st.just("hit"), st.integers(0, 5), v),
-        st.tuples(st.just("finished"), st.integers(0, 3)),
-        st.tuples(st.just("started"), st.integers(0, 3)),
-    ).map(list)
+    item = history_item()
     return st.one_of(st.lists(item, min_size=1, max_size=8), st.lists(item, min_size=12, max_size=max_len), st.lists(item, min_size=12, max_size=max_len))
